@@ -39,10 +39,11 @@ impl Buf {
         Buf { b: [0; 4096], n: 0 }
     }
     fn byte(&mut self, c: u8) {
-        if self.n < self.b.len() {
-            self.b[self.n] = c;
-            self.n += 1;
+        if self.n >= self.b.len() {
+            self.flush_partial();
         }
+        self.b[self.n] = c;
+        self.n += 1;
     }
     fn s(&mut self, s: &str) {
         for c in s.bytes() {
@@ -826,11 +827,26 @@ fn main() {
         }
     }
     if let Some(p) = spec.get("path") {
-        std::env::set_var("PATH", OsString::from_vec(hexdec(p)));
+        if p == "unset" {
+            std::env::remove_var("PATH");
+        } else {
+            std::env::set_var("PATH", OsString::from_vec(hexdec(p)));
+        }
     }
     let stub = spec.get("stub").unwrap_or("/verif/.build/cargo/debug/childstub").to_string();
     std::env::set_var("STUB_DIR", &args[2]);
 
+    if spec.get("show_environ") == Some("1") {
+        let mut e: Vec<String> = vec![];
+        unsafe {
+            let mut i = 0;
+            while !environ.is_null() && !(*environ.add(i)).is_null() {
+                e.push(hexenc(CStr::from_ptr(*environ.add(i)).to_bytes()));
+                i += 1;
+            }
+        }
+        println!("environ {}", e.join(","));
+    }
     open_log();
     show_table("fds_before");
     let t0 = Instant::now();
@@ -853,9 +869,11 @@ fn main() {
 
 fn argv_of(spec: &Spec, stub: &str, key: &str) -> Vec<OsString> {
     // argv <hex>,<hex>,... ; the token "STUB" stands for the stub's path
-    spec.get(key)
-        .unwrap()
-        .split(',')
+    let a = spec.get(key).unwrap();
+    if a == "none" {
+        return vec![];
+    }
+    a.split(',')
         .map(|a| if a == "STUB" { OsString::from(stub) } else { OsString::from_vec(hexdec(a)) })
         .collect()
 }
